@@ -156,6 +156,10 @@ pub trait AddrLike {
     fn weak_topic2(&self) -> WeakSender<Tp<2>> {
         panic!("harness: unsupported on this handle")
     }
+    /// the same conversion through the `From` impls (route 1: from `&Addr`, route 2: from an owned clone)
+    fn convert_via(&self, _what: &str, _route: i64) -> Option<HandleV> {
+        None
+    }
     /// broker side: Addr<Broker<T>>::publish / subscribe / unsubscribe
     fn bpublish(&self, _m: crate::actors::MsgId) -> LocalBoxFuture<'_, HResult<()>> {
         panic!("harness: not a broker handle")
@@ -242,6 +246,19 @@ impl<const K: usize> AddrLike for Addr<H<K>> {
     }
     fn aid(&self) -> u64 {
         self.__verif_id()
+    }
+    fn convert_via(&self, what: &str, route: i64) -> Option<HandleV> {
+        Some(match (what, route) {
+            ("sender", 1) => HandleV::Sender(Sender::from(self)),
+            ("sender", 2) => HandleV::Sender(Sender::from(self.clone())),
+            ("caller", 2) => HandleV::Caller(Caller::from(self.clone())),
+            ("weak_sender", 1) => HandleV::WSender(WeakSender::from(self)),
+            ("weak_sender", 2) => HandleV::WSender(WeakSender::from(self.clone())),
+            ("weak_caller", 1) => HandleV::WCaller(WeakCaller::from(self)),
+            ("weak_caller", 2) => HandleV::WCaller(WeakCaller::from(self.clone())),
+            ("downgrade", 1) => HandleV::WAddr(Box::new(hannibal::WeakAddr::from(self))),
+            _ => return None,
+        })
     }
 }
 
@@ -902,7 +919,11 @@ async fn run_op(c: &str, n: i64, o: &Op) -> Res {
         }
         "clone" | "downgrade" | "sender" | "caller" | "weak_sender" | "weak_caller" | "to_addr" => {
             let h = take_h(&o.h);
-            let nh = match (&h, o.op.as_str()) {
+            let via = match (&h, o.d) {
+                (Addr(x), d) if d > 0 => x.convert_via(&o.op, d),
+                _ => None,
+            };
+            let nh = if let Some(v) = via { v } else { match (&h, o.op.as_str()) {
                 (Addr(x), "clone") => Addr(x.clone_box()),
                 (Sender(x), "clone") => Sender(x.clone()),
                 (Caller(x), "clone") => Caller(x.clone()),
@@ -922,7 +943,7 @@ async fn run_op(c: &str, n: i64, o: &Op) -> Res {
                 (Owning(x), "weak_caller") => WCaller(x.addr().weak_caller()),
                 (Owning(x), "to_addr") => Addr(x.to_addr()),
                 _ => panic!("harness: {} on wrong kind", o.op),
-            };
+            } };
             let a = actor_of(nh.aid());
             put_h(&o.h, h);
             put_h(&o.nh, nh);
